@@ -666,6 +666,45 @@ type byte = z
 let zlen l =
   Z.of_nat (length l)
 
+(** val put_u32 : z -> byte list **)
+
+let put_u32 x =
+  (Z.modulo
+    (Z.div x (Zpos (XO (XO (XO (XO (XO (XO (XO (XO (XO (XO (XO (XO (XO (XO
+      (XO (XO (XO (XO (XO (XO (XO (XO (XO (XO XH))))))))))))))))))))))))))
+    (Zpos (XO (XO (XO (XO (XO (XO (XO (XO XH)))))))))) :: ((Z.modulo
+                                                             (Z.div x (Zpos
+                                                               (XO (XO (XO
+                                                               (XO (XO (XO
+                                                               (XO (XO (XO
+                                                               (XO (XO (XO
+                                                               (XO (XO (XO
+                                                               (XO
+                                                               XH))))))))))))))))))
+                                                             (Zpos (XO (XO
+                                                             (XO (XO (XO (XO
+                                                             (XO (XO
+                                                             XH)))))))))) :: (
+    (Z.modulo (Z.div x (Zpos (XO (XO (XO (XO (XO (XO (XO (XO XH))))))))))
+      (Zpos (XO (XO (XO (XO (XO (XO (XO (XO XH)))))))))) :: ((Z.modulo x
+                                                               (Zpos (XO (XO
+                                                               (XO (XO (XO
+                                                               (XO (XO (XO
+                                                               XH)))))))))) :: [])))
+
+(** val put_u64 : z -> byte list **)
+
+let put_u64 x =
+  app
+    (put_u32
+      (Z.div x (Zpos (XO (XO (XO (XO (XO (XO (XO (XO (XO (XO (XO (XO (XO (XO
+        (XO (XO (XO (XO (XO (XO (XO (XO (XO (XO (XO (XO (XO (XO (XO (XO (XO
+        (XO XH)))))))))))))))))))))))))))))))))))
+    (put_u32
+      (Z.modulo x (Zpos (XO (XO (XO (XO (XO (XO (XO (XO (XO (XO (XO (XO (XO
+        (XO (XO (XO (XO (XO (XO (XO (XO (XO (XO (XO (XO (XO (XO (XO (XO (XO
+        (XO (XO XH)))))))))))))))))))))))))))))))))))
+
 (** val get_u32 : byte list -> (z * byte list) option **)
 
 let get_u32 = function
@@ -1731,20 +1770,19 @@ let alloc mm n0 s =
   ac_maxreq = (Z.max a.ac_maxreq n0); ac_nalloc =
   (Z.add a.ac_nalloc (Zpos XH)) }))
 
-(** val iter_pos :
-    positive -> ('a2 -> ('a1, 'a2) p) -> 'a2 -> ('a1, 'a2) p **)
+(** val iter_p : positive -> ('a2 -> ('a1, 'a2) p) -> 'a2 -> ('a1, 'a2) p **)
 
-let rec iter_pos p0 f x =
+let rec iter_p p0 f x =
   match p0 with
-  | XI q -> bind (f x) (fun x1 -> bind (iter_pos q f x1) (iter_pos q f))
-  | XO q -> bind (iter_pos q f x) (iter_pos q f)
+  | XI q -> bind (f x) (fun x1 -> bind (iter_p q f x1) (iter_p q f))
+  | XO q -> bind (iter_p q f x) (iter_p q f)
   | XH -> f x
 
 (** val iter_n : z -> ('a2 -> ('a1, 'a2) p) -> 'a2 -> ('a1, 'a2) p **)
 
 let iter_n n0 f x =
   match n0 with
-  | Zpos p0 -> iter_pos p0 f x
+  | Zpos p0 -> iter_p p0 f x
   | _ -> ret x
 
 (** val rd_nn : 'a1 src -> z -> ('a1, z) p **)
@@ -2326,15 +2364,15 @@ let c_init chunk f =
   c_fetch { c_chunk = chunk; c_pos = Z0; c_tail = (zeros chunk); c_off = Z0;
     c_rest = f; c_getsize = Z0; c_fetches = Z0 }
 
-(** val acct0 : z -> acct **)
+(** val acct0 : acct **)
 
-let acct0 chunk =
-  { ac_alloc = chunk; ac_maxreq = chunk; ac_nalloc = (Zpos XH) }
+let acct0 =
+  { ac_alloc = Z0; ac_maxreq = Z0; ac_nalloc = Z0 }
 
 (** val read_header : z -> z -> byte list -> opened res * (cst * acct) **)
 
 let read_header chunk mm f =
-  hdr_get_NC csrc mm ((c_init chunk f), (acct0 chunk))
+  hdr_get_NC csrc mm ((c_init chunk f), acct0)
 
 (** val f_g32 : byte list -> z * byte list **)
 
@@ -2366,10 +2404,10 @@ let fsrc =
   { g32 = f_g32; g64 = f_g64; gbytes = f_gbytes; gskip = f_gskip }
 
 (** val read_header_flat :
-    z -> z -> byte list -> opened res * (byte list * acct) **)
+    z -> byte list -> opened res * (byte list * acct) **)
 
-let read_header_flat chunk mm f =
-  hdr_get_NC fsrc mm (f, (acct0 chunk))
+let read_header_flat mm f =
+  hdr_get_NC fsrc mm (f, acct0)
 
 (** val hdf5_probe : nat -> byte list -> z -> bool **)
 
@@ -2416,7 +2454,9 @@ let open_model chunk_hint mm f =
     let (r, p0) = read_header chunk mm f in
     let (c, a) = p0 in
     { out_res = r; out_fetches = c.c_fetches; out_offset = c.c_off;
-    out_getsize = c.c_getsize; out_acct = a }
+    out_getsize = c.c_getsize; out_acct = { ac_alloc =
+    (Z.add a.ac_alloc chunk); ac_maxreq = (Z.max a.ac_maxreq chunk);
+    ac_nalloc = (Z.add a.ac_nalloc (Zpos XH)) } }
   | Err e ->
     { out_res = (Err e); out_fetches = Z0; out_offset = Z0; out_getsize = Z0;
       out_acct = { ac_alloc = Z0; ac_maxreq = Z0; ac_nalloc = Z0 } }
@@ -2424,11 +2464,11 @@ let open_model chunk_hint mm f =
     { out_res = (Crash s); out_fetches = Z0; out_offset = Z0; out_getsize =
       Z0; out_acct = { ac_alloc = Z0; ac_maxreq = Z0; ac_nalloc = Z0 } }
 
-(** val open_flat : z -> z -> byte list -> opened res **)
+(** val open_flat : z -> byte list -> opened res **)
 
-let open_flat chunk_hint mm f =
+let open_flat mm f =
   match inq_file_format f with
-  | Ok _ -> fst (read_header_flat (norm_chunk chunk_hint) mm f)
+  | Ok _ -> fst (read_header_flat mm f)
   | Err e -> Err e
   | Crash s -> Crash s
 
@@ -2492,6 +2532,7 @@ let rec order_ok prev = function
 
 let c04_valid mm d =
   let h = d.dc_hdr in
+  let fmt = h.h_format in
   let dims = h.h_dims in
   let vars = h.h_vars in
   let fixed = filter (fun v -> negb (is_recvar dims v)) vars in
@@ -2507,42 +2548,53 @@ let c04_valid mm d =
                   ((&&)
                     ((&&)
                       ((&&)
-                        ((&&) (Z.leb h.h_numrecs i64_MAX)
-                          (Z.leb (zlen dims)
+                        ((&&)
+                          ((&&)
+                            ((&&) (Z.leb h.h_numrecs i64_MAX)
+                              (Z.leb (zlen dims)
+                                (Z.sub nC_MAX_INT (Zpos (XI (XI (XI (XI (XI
+                                  XH)))))))))
+                            (Z.leb (zlen h.h_gatts)
+                              (Z.sub nC_MAX_INT (Zpos (XI (XI (XI (XI (XI
+                                XH)))))))))
+                          (Z.leb (zlen vars)
                             (Z.sub nC_MAX_INT (Zpos (XI (XI (XI (XI (XI
                               XH)))))))))
-                        (Z.leb (zlen h.h_gatts)
-                          (Z.sub nC_MAX_INT (Zpos (XI (XI (XI (XI (XI
-                            XH)))))))))
-                      (Z.leb (zlen vars)
-                        (Z.sub nC_MAX_INT (Zpos (XI (XI (XI (XI (XI XH)))))))))
-                    (forallb (fun x ->
-                      (&&) ((&&) (name_ok x.d_name) (Z.leb Z0 x.d_size))
-                        (Z.leb x.d_size i64_MAX)) dims))
-                  (Z.leb (zlen (filter (fun x -> Z.eqb x.d_size Z0) dims))
-                    (Zpos XH))) (forallb att_ok h.h_gatts))
-              (forallb (fun v ->
-                (&&)
-                  ((&&)
-                    ((&&)
+                        (forallb (fun x ->
+                          (&&) ((&&) (name_ok x.d_name) (Z.leb Z0 x.d_size))
+                            (Z.leb x.d_size i64_MAX)) dims))
+                      (Z.leb
+                        (zlen (filter (fun x -> Z.eqb x.d_size Z0) dims))
+                        (Zpos XH))) (forallb att_ok h.h_gatts))
+                  (forallb (fun v ->
+                    (&&)
                       ((&&)
                         ((&&)
                           ((&&)
                             ((&&)
-                              ((&&) (name_ok v.v_name)
-                                (Z.leb (zlen v.v_dimids) nC_MAX_INT))
-                              (Z.leb (zlen v.v_atts)
-                                (Z.sub nC_MAX_INT (Zpos (XI (XI (XI (XI (XI
-                                  XH))))))))) (forallb att_ok v.v_atts))
-                          (forallb (fun i ->
-                            (&&) (Z.leb Z0 i) (Z.ltb i (zlen dims)))
-                            v.v_dimids))
-                        (negb (unlimpos_bad (var_shape dims v))))
-                      (check_vlen (xlen_type v.v_type) (var_shape dims v)
-                        (Z.sub i64_MAX (Zpos (XI XH))))) (Z.leb Z0 v.v_begin))
-                  (Z.leb v.v_begin (Z.sub i64_MAX (var_len dims v)))) vars))
-            (Z.leb (zsum (map (var_len dims) recs)) i64_MAX))
-          (Z.eqb (check_vlens h) nC_NOERR)) (Z.leb d.dc_len i64_MAX))
+                              ((&&)
+                                ((&&)
+                                  ((&&)
+                                    ((&&)
+                                      ((&&) (name_ok v.v_name)
+                                        (Z.leb (zlen v.v_dimids) nC_MAX_INT))
+                                      (Z.leb (zlen v.v_atts)
+                                        (Z.sub nC_MAX_INT (Zpos (XI (XI (XI
+                                          (XI (XI XH)))))))))
+                                    (forallb att_ok v.v_atts))
+                                  (forallb (fun i ->
+                                    (&&) (Z.leb Z0 i) (Z.ltb i (zlen dims)))
+                                    v.v_dimids))
+                                (negb (unlimpos_bad (var_shape dims v))))
+                              (valid_type fmt v.v_type))
+                            (check_vlen (xlen_type v.v_type)
+                              (var_shape dims v)
+                              (Z.sub i64_MAX (Zpos (XI XH)))))
+                          (Z.leb Z0 v.v_begin)) (Z.leb v.v_begin i64_MAX))
+                      (Z.leb v.v_begin (Z.sub i64_MAX (var_len dims v))))
+                    vars)) (Z.leb (zsum (map (var_len dims) recs)) i64_MAX))
+              (Z.eqb (check_vlens h) nC_NOERR)) (Z.eqb d.dc_len (hdr_len h)))
+          (Z.ltb Z0 d.dc_len)) (Z.leb d.dc_len i64_MAX))
       (Z.leb (hdr_req h) mm))
     (match vars with
      | [] -> true
@@ -2601,3 +2653,278 @@ let consistent o =
      | _ :: _ ->
        (&&) (Z.leb lay.l_xsz lay.l_begin_var)
          (Z.leb lay.l_begin_var lay.l_begin_rec))
+
+(** val u32 : z -> byte list **)
+
+let u32 =
+  put_u32
+
+(** val u64 : z -> byte list **)
+
+let u64 =
+  put_u64
+
+(** val nm1 : z -> byte list **)
+
+let nm1 c =
+  app (u32 (Zpos XH)) (c :: (Z0 :: (Z0 :: (Z0 :: []))))
+
+(** val nm5 : z -> byte list **)
+
+let nm5 c =
+  app (u64 (Zpos XH)) (c :: (Z0 :: (Z0 :: (Z0 :: []))))
+
+(** val absent1 : byte list **)
+
+let absent1 =
+  app (u32 Z0) (u32 Z0)
+
+(** val absent5 : byte list **)
+
+let absent5 =
+  app (u32 Z0) (u64 Z0)
+
+(** val w_rndup_int : byte list **)
+
+let w_rndup_int =
+  app ((Zpos (XI (XI (XO (XO (XO (XO XH))))))) :: ((Zpos (XO (XO (XI (XO (XO
+    (XO XH))))))) :: ((Zpos (XO (XI (XI (XO (XO (XO XH))))))) :: ((Zpos
+    XH) :: []))))
+    (app (u32 Z0)
+      (app (u32 (Zpos (XO (XI (XO XH)))))
+        (app
+          (u32 (Zpos (XI (XI (XI (XI (XI (XI (XI (XI (XI (XI (XI (XI (XI (XI
+            (XI (XI (XI (XI (XI (XI (XI (XI (XI (XI (XI (XI (XI (XI (XI (XI
+            XH)))))))))))))))))))))))))))))))) (app absent1 absent1))))
+
+(** val w_attr_null : byte list **)
+
+let w_attr_null =
+  app ((Zpos (XI (XI (XO (XO (XO (XO XH))))))) :: ((Zpos (XO (XO (XI (XO (XO
+    (XO XH))))))) :: ((Zpos (XO (XI (XI (XO (XO (XO XH))))))) :: ((Zpos (XI
+    (XO XH))) :: []))))
+    (app (u64 Z0)
+      (app absent5
+        (app (u32 (Zpos (XO (XO (XI XH)))))
+          (app (u64 (Zpos XH))
+            (app (nm5 (Zpos (XI (XO (XO (XO (XO (XI XH))))))))
+              (app (u32 (Zpos XH))
+                (app
+                  (u64 (Zpos (XI (XI (XI (XI (XI (XI (XI (XI (XI (XI (XI (XI
+                    (XI (XI (XI (XI (XI (XI (XI (XI (XI (XI (XI (XI (XI (XI
+                    (XI (XI (XI (XI (XI (XI (XI (XI (XI (XI (XI (XI (XI (XI
+                    (XI (XI (XI (XI (XI (XI (XI (XI (XI (XI (XI (XI (XI (XI
+                    (XI (XI (XI (XI (XI (XI (XI (XI (XI
+                    XH)))))))))))))))))))))))))))))))))))))))))))))))))))))))))))))))))
+                  absent5)))))))
+
+(** val w_attrV_mul : byte list **)
+
+let w_attrV_mul =
+  app ((Zpos (XI (XI (XO (XO (XO (XO XH))))))) :: ((Zpos (XO (XO (XI (XO (XO
+    (XO XH))))))) :: ((Zpos (XO (XI (XI (XO (XO (XO XH))))))) :: ((Zpos (XI
+    (XO XH))) :: []))))
+    (app (u64 Z0)
+      (app absent5
+        (app (u32 (Zpos (XO (XO (XI XH)))))
+          (app (u64 (Zpos XH))
+            (app (nm5 (Zpos (XI (XO (XO (XO (XO (XI XH))))))))
+              (app (u32 (Zpos (XO (XI XH))))
+                (app
+                  (u64 (Zpos (XO (XO (XO (XO (XO (XO (XO (XO (XO (XO (XO (XO
+                    (XO (XO (XO (XO (XO (XO (XO (XO (XO (XO (XO (XO (XO (XO
+                    (XO (XO (XO (XO (XO (XO (XO (XO (XO (XO (XO (XO (XO (XO
+                    (XO (XO (XO (XO (XO (XO (XO (XO (XO (XO (XO (XO (XO (XO
+                    (XO (XO (XO (XO (XO (XO (XO (XO (XO
+                    XH)))))))))))))))))))))))))))))))))))))))))))))))))))))))))))))))))
+                  absent5)))))))
+
+(** val w_attr_xlen : byte list **)
+
+let w_attr_xlen =
+  app ((Zpos (XI (XI (XO (XO (XO (XO XH))))))) :: ((Zpos (XO (XO (XI (XO (XO
+    (XO XH))))))) :: ((Zpos (XO (XI (XI (XO (XO (XO XH))))))) :: ((Zpos (XI
+    (XO XH))) :: []))))
+    (app (u64 Z0)
+      (app absent5
+        (app (u32 (Zpos (XO (XO (XI XH)))))
+          (app (u64 (Zpos XH))
+            (app (nm5 (Zpos (XI (XO (XO (XO (XO (XI XH))))))))
+              (app (u32 (Zpos (XO (XI XH))))
+                (app
+                  (u64 (Zpos (XO (XO (XO (XO (XO (XO (XO (XO (XO (XO (XO (XO
+                    (XO (XO (XO (XO (XO (XO (XO (XO (XO (XO (XO (XO (XO (XO
+                    (XO (XO (XO (XO (XO (XO (XO (XO (XO (XO (XO (XO (XO (XO
+                    (XO (XO (XO (XO (XO (XO (XO (XO (XO (XO (XO (XO (XO (XO
+                    (XO (XO (XO (XO (XO (XO (XO
+                    XH)))))))))))))))))))))))))))))))))))))))))))))))))))))))))))))))
+                  absent5)))))))
+
+(** val w_shape_product : byte list **)
+
+let w_shape_product =
+  app ((Zpos (XI (XI (XO (XO (XO (XO XH))))))) :: ((Zpos (XO (XO (XI (XO (XO
+    (XO XH))))))) :: ((Zpos (XO (XI (XI (XO (XO (XO XH))))))) :: ((Zpos
+    XH) :: []))))
+    (app (u32 Z0)
+      (app (u32 (Zpos (XO (XI (XO XH)))))
+        (app (u32 (Zpos (XO XH)))
+          (app (nm1 (Zpos (XO (XO (XO (XI (XI (XI XH))))))))
+            (app
+              (u32 (Zpos (XI (XI (XI (XI (XI (XI (XI (XI (XI (XI (XI (XI (XI
+                (XI (XI (XI (XI (XI (XI (XI (XI (XI (XI (XI (XI (XI (XI (XI
+                (XI (XI (XI XH)))))))))))))))))))))))))))))))))
+              (app (nm1 (Zpos (XI (XO (XO (XI (XI (XI XH))))))))
+                (app
+                  (u32 (Zpos (XI (XI (XI (XI (XI (XI (XI (XI (XI (XI (XI (XI
+                    (XI (XI (XI (XI (XI (XI (XI (XI (XI (XI (XI (XI (XI (XI
+                    (XI (XI (XI (XI (XI XH)))))))))))))))))))))))))))))))))
+                  (app absent1
+                    (app (u32 (Zpos (XI (XI (XO XH)))))
+                      (app (u32 (Zpos XH))
+                        (app (nm1 (Zpos (XO (XI (XI (XO (XI (XI XH))))))))
+                          (app (u32 (Zpos (XO XH)))
+                            (app (u32 Z0)
+                              (app (u32 (Zpos XH))
+                                (app absent1
+                                  (app (u32 (Zpos XH))
+                                    (app (u32 Z0)
+                                      (u32 (Zpos (XO (XO (XO (XI (XO (XO (XI
+                                        XH))))))))))))))))))))))))))
+
+(** val w_var_calloc : byte list **)
+
+let w_var_calloc =
+  app ((Zpos (XI (XI (XO (XO (XO (XO XH))))))) :: ((Zpos (XO (XO (XI (XO (XO
+    (XO XH))))))) :: ((Zpos (XO (XI (XI (XO (XO (XO XH))))))) :: ((Zpos
+    XH) :: []))))
+    (app (u32 Z0)
+      (app (u32 (Zpos (XO (XI (XO XH)))))
+        (app (u32 (Zpos XH))
+          (app (nm1 (Zpos (XO (XO (XO (XI (XI (XI XH))))))))
+            (app (u32 (Zpos (XI (XO XH))))
+              (app absent1
+                (app (u32 (Zpos (XI (XI (XO XH)))))
+                  (app (u32 (Zpos XH))
+                    (app (nm1 (Zpos (XO (XI (XI (XO (XI (XI XH))))))))
+                      (app
+                        (u32 (Zpos (XI (XI (XI (XI (XI (XI (XI (XI (XI (XI
+                          (XI (XI (XI (XI (XI (XI (XI (XI (XI (XI (XI (XI (XI
+                          (XI (XI (XI (XI (XI (XI (XI
+                          XH))))))))))))))))))))))))))))))))
+                        (app (u32 Z0) (app (u32 Z0) (app (u32 Z0) (u32 Z0))))))))))))))
+
+(** val w_check_vlen : byte list **)
+
+let w_check_vlen =
+  app ((Zpos (XI (XI (XO (XO (XO (XO XH))))))) :: ((Zpos (XO (XO (XI (XO (XO
+    (XO XH))))))) :: ((Zpos (XO (XI (XI (XO (XO (XO XH))))))) :: ((Zpos (XI
+    (XO XH))) :: []))))
+    (app (u64 Z0)
+      (app (u32 (Zpos (XO (XI (XO XH)))))
+        (app (u64 (Zpos XH))
+          (app (nm5 (Zpos (XO (XO (XO (XI (XI (XI XH))))))))
+            (app
+              (u64 (Zpos (XO (XO (XO (XO (XO (XO (XO (XO (XO (XO (XO (XO (XO
+                (XO (XO (XO (XO (XO (XO (XO (XO (XO (XO (XO (XO (XO (XO (XO
+                (XO (XO (XO (XO (XO (XO (XO (XO (XO (XO (XO (XO (XO (XO (XO
+                (XO (XO (XO (XO (XO (XO (XO (XO (XO (XO (XO (XO (XO (XO (XO
+                (XO (XO (XO (XO (XO
+                XH)))))))))))))))))))))))))))))))))))))))))))))))))))))))))))))))))
+              (app absent5
+                (app (u32 (Zpos (XI (XI (XO XH)))))
+                  (app (u64 (Zpos XH))
+                    (app (nm5 (Zpos (XO (XI (XI (XO (XI (XI XH))))))))
+                      (app (u64 (Zpos XH))
+                        (app (u64 Z0)
+                          (app absent5
+                            (app (u32 (Zpos (XO (XO XH))))
+                              (app (u64 Z0)
+                                (u64 (Zpos (XO (XO (XO (XI (XO (XO (XI
+                                  XH)))))))))))))))))))))))
+
+(** val w_begin_len : byte list **)
+
+let w_begin_len =
+  app ((Zpos (XI (XI (XO (XO (XO (XO XH))))))) :: ((Zpos (XO (XO (XI (XO (XO
+    (XO XH))))))) :: ((Zpos (XO (XI (XI (XO (XO (XO XH))))))) :: ((Zpos (XO
+    XH)) :: []))))
+    (app (u32 Z0)
+      (app absent1
+        (app absent1
+          (app (u32 (Zpos (XI (XI (XO XH)))))
+            (app (u32 (Zpos XH))
+              (app (nm1 (Zpos (XO (XI (XI (XO (XI (XI XH))))))))
+                (app (u32 Z0)
+                  (app absent1
+                    (app (u32 (Zpos (XO (XI XH))))
+                      (app (u32 (Zpos (XO (XO (XO XH)))))
+                        (u64 (Zpos (XO (XO (XI (XI (XI (XI (XI (XI (XI (XI
+                          (XI (XI (XI (XI (XI (XI (XI (XI (XI (XI (XI (XI (XI
+                          (XI (XI (XI (XI (XI (XI (XI (XI (XI (XI (XI (XI (XI
+                          (XI (XI (XI (XI (XI (XI (XI (XI (XI (XI (XI (XI (XI
+                          (XI (XI (XI (XI (XI (XI (XI (XI (XI (XI (XI (XI (XI
+                          XH))))))))))))))))))))))))))))))))))))))))))))))))))))))))))))))))))))))))))
+
+(** val w_numrecs_neg : byte list **)
+
+let w_numrecs_neg =
+  app ((Zpos (XI (XI (XO (XO (XO (XO XH))))))) :: ((Zpos (XO (XO (XI (XO (XO
+    (XO XH))))))) :: ((Zpos (XO (XI (XI (XO (XO (XO XH))))))) :: ((Zpos (XI
+    (XO XH))) :: []))))
+    (app
+      (u64 (Zpos (XI (XI (XI (XI (XI (XI (XI (XI (XI (XI (XI (XI (XI (XI (XI
+        (XI (XI (XI (XI (XI (XI (XI (XI (XI (XI (XI (XI (XI (XI (XI (XI (XI
+        (XI (XI (XI (XI (XI (XI (XI (XI (XI (XI (XI (XI (XI (XI (XI (XI (XI
+        (XI (XI (XI (XI (XI (XI (XI (XI (XI (XI (XI (XI (XI (XI
+        XH)))))))))))))))))))))))))))))))))))))))))))))))))))))))))))))))))
+      (app absent5 (app absent5 absent5)))
+
+(** val w_dim_neg : byte list **)
+
+let w_dim_neg =
+  app ((Zpos (XI (XI (XO (XO (XO (XO XH))))))) :: ((Zpos (XO (XO (XI (XO (XO
+    (XO XH))))))) :: ((Zpos (XO (XI (XI (XO (XO (XO XH))))))) :: ((Zpos (XI
+    (XO XH))) :: []))))
+    (app (u64 Z0)
+      (app (u32 (Zpos (XO (XI (XO XH)))))
+        (app (u64 (Zpos XH))
+          (app (nm5 (Zpos (XO (XO (XO (XI (XI (XI XH))))))))
+            (app
+              (u64 (Zpos (XI (XO (XI (XO (XO (XO (XO (XO (XO (XO (XO (XO (XO
+                (XO (XO (XO (XO (XO (XO (XO (XO (XO (XO (XO (XO (XO (XO (XO
+                (XO (XO (XO (XO (XO (XO (XO (XO (XO (XO (XO (XO (XO (XO (XO
+                (XO (XO (XO (XO (XO (XO (XO (XO (XO (XO (XO (XO (XO (XO (XO
+                (XO (XO (XO (XO (XO
+                XH)))))))))))))))))))))))))))))))))))))))))))))))))))))))))))))))))
+              (app absent5 absent5))))))
+
+(** val w_alloc_dims : byte list **)
+
+let w_alloc_dims =
+  app ((Zpos (XI (XI (XO (XO (XO (XO XH))))))) :: ((Zpos (XO (XO (XI (XO (XO
+    (XO XH))))))) :: ((Zpos (XO (XI (XI (XO (XO (XO XH))))))) :: ((Zpos
+    XH) :: []))))
+    (app (u32 Z0)
+      (app (u32 (Zpos (XO (XI (XO XH)))))
+        (app
+          (u32 (Zpos (XO (XO (XO (XO (XO (XO (XI (XI (XI (XI (XI (XI (XI (XI
+            (XI (XI (XI (XI (XI (XI (XI (XI (XI (XI (XI (XI (XI (XI (XI (XI
+            XH))))))))))))))))))))))))))))))))
+          (app absent1 (app absent1 (app absent1 absent1))))))
+
+(** val w_read_zeros : byte list **)
+
+let w_read_zeros =
+  app ((Zpos (XI (XI (XO (XO (XO (XO XH))))))) :: ((Zpos (XO (XO (XI (XO (XO
+    (XO XH))))))) :: ((Zpos (XO (XI (XI (XO (XO (XO XH))))))) :: ((Zpos
+    XH) :: []))))
+    (app (u32 Z0)
+      (app absent1
+        (app (u32 (Zpos (XO (XO (XI XH)))))
+          (app (u32 (Zpos XH))
+            (app (nm1 (Zpos (XI (XO (XO (XO (XO (XI XH))))))))
+              (app (u32 (Zpos XH))
+                (app
+                  (u32 (Zpos (XO (XO (XO (XO (XO (XI (XO (XI (XO (XI (XI (XO
+                    (XO (XO (XO (XI XH)))))))))))))))))) absent1)))))))
